@@ -17,7 +17,10 @@ Oracles (see vlib/c09ref.py for the reference decoding semantics):
                     bytes / parser holding pending input / other)
   M  memory       : after every loop iteration and every consumer operation the decoded bytes resident in the
                     StreamReader <= K * max(limit, largest requested read) (+ one wire segment for identity bodies);
-                    the peak for a 100x larger bomb <= 1.5 x the peak of the small one; tracemalloc cross-check
+                    the peak for a 100x larger bomb <= 1.5 x the peak of the small one; tracemalloc cross-check;
+                    M2: decoded bytes not yet handed to the application (StreamReader.total_bytes - delivered: the
+                    buffer *and* what a pending readline()/readuntil()/readexactly() has collected) <= the resident
+                    bound + what that operation asked for (n, or the line limit + one decoder step)
   S  server       : read()/post()/part.read() never return more than client_max_size, raise 413 beyond it, and the
                     decoded total at that moment is bounded
 """
@@ -57,6 +60,8 @@ ASSUMPTIONS = [
     "brotli's output_buffer_limit is a soft cap of the library (one step < 2*limit + 32 KiB): the constant factor for br is 4 (+32 KiB), for the other codings 3",
     "the server-side payload error is RequestPayloadError; for a dropped connection it is ConnectionResetError (BaseRequest._cancel)",
     "read-buffer limit 0 is outside the configuration space (DESIGN.md C08)",
+    "profile rule P-LINE-TOO-LONG: readline()/readuntil() give up with LineTooLong on a line longer than max_size (default: the reader's high-water mark = 2 x max(limit, largest bounded read requested)); the line consumer stops there",
+    "profile rule P-MEMBER-FLOOD: one decoder call that would have to walk more than 1024 members may be rejected (flood cap); bodies with more members in total, spread over several decoder calls, must decode",
 ]
 FILES = [
     "aiohttp/http_parser.py",
@@ -114,6 +119,12 @@ def resident_bound(tok: str, L: int, maxseg: int) -> int:
 
 PEAK_RATIO = 1.5
 MAXSEG = 65536
+# P-MEMBER-FLOOD: aiohttp/compression_utils.py "MAX_DECOMPRESS_MEMBERS = 1024 ... Cap on concatenated members decoded in
+# one call"; pinned by tests/test_compression_utils.py::test_zlib_deflate_member_flood_rejected,
+# ::test_zlib_deflate_members_one_over_limit, ::test_zstd_frame_flood_rejected (rejection of one over-long call) and
+# ::test_zlib_gzip_many_members ("A call may decode up to the member limit, resuming across calls").
+FLOOD_CAP = 1024
+MULTI_TOKENS = ("gzip", "deflate", "zstd")
 PAYLOAD_ERRORS_CLIENT = ("ClientPayloadError",)
 PAYLOAD_ERRORS_SERVER = ("RequestPayloadError",)
 
@@ -152,7 +163,14 @@ def materialise(case: dict):
     body = R.mutate(body0, mut)
     tok = token.decode() if token else "identity"
     big = len(body) > (1 << 16) or case["plain"]["n"] > (1 << 21)
-    if mut or case.get("members") or not big:
+    ms = R.member_sizes(case)
+    if ms and len(ms) > 64 and not mut:
+        # many members: the reference decoder is fed through a 4 KiB window (same result; a one-shot decode copies
+        # the whole rest of the body into unused_data at every member end)
+        status, ref, members = R.ref_decode(tok, body, 4096)
+        assert status in ("ok", "empty") and expect.matches(0, ref) and len(ref) == expect.n, (status, len(ref), expect.n)
+        ref_exp = R.Expect(data=ref)
+    elif mut or ms or not big:
         status, ref, members = ref_decode_checked(tok, body, bool(mut))
         if not mut:
             # the reference must invert its own encoder, otherwise the reference side is broken
@@ -169,7 +187,7 @@ def build_wire(case: dict, body: bytes, side: str):
     """Head + framed body as the scripted peer will send it.  Returns (wire, head_len, chunk-size line offsets)."""
     token = R.TOKEN[case["codec"]]
     framing = case["framing"]
-    flines, framed, lines = R.frame_body(body, framing, case.get("chunks"))
+    flines, framed, lines = R.frame_body(body, framing, resolve_chunk_plan(case))
     hdr = []
     if token is not None:
         tk = token
@@ -190,6 +208,16 @@ def build_wire(case: dict, body: bytes, side: str):
             hdr.append(b"Content-Type: " + ct.encode())
         head = b"POST /x HTTP/1.1\r\nHost: h\r\n" + b"".join(h + b"\r\n" for h in hdr) + b"\r\n"
     return head + framed, len(head), lines
+
+
+def resolve_chunk_plan(case: dict):
+    """{"kind": "members", "per": k}: every HTTP chunk carries k whole members (the member ends fall on feed ends)."""
+    plan = case.get("chunks")
+    if plan and plan.get("kind") == "members":
+        coded, _ = R.member_coded(case)
+        per = max(1, plan["per"])
+        return {"kind": "explicit", "sizes": [sum(len(x) for x in coded[i : i + per]) for i in range(0, len(coded), per)]}
+    return plan
 
 
 def make_seg(case: dict, head_len: int, framed_len: int, lines, wire: bytes):
@@ -237,6 +265,10 @@ class Consumed:
         self.op_budget = None
         self.ops_exceeded = False
         self.bytes_observed = True  # False: the handler consumed the body through a parser (form / multipart)
+        self.hold = None  # what the operation in flight may collect before it returns: ("exact", n) | ("line", max|None)
+        self.line_op = None  # the last readline()/readuntil() issued: offset, separator, max_size, water marks then
+        self.track_held = False  # the consumer is consume(): delivered bytes are known at every instant
+        self.held_done = False
 
     def take(self, chunk: bytes):
         if chunk:
@@ -255,6 +287,10 @@ class Consumed:
             self.unbounded = True
         elif n > self.leff:
             self.leff = n
+
+    def begin_line(self, sep: bytes, mx: int | None):
+        self.line_op = {"off": self.n, "sep": sep[0], "max": mx, "leff": self.leff, "unbounded": self.unbounded}
+        self.hold = ("line", mx)
 
 
 async def consume(content, script: dict, c: Consumed):
@@ -295,6 +331,26 @@ async def consume(content, script: dict, c: Consumed):
                 if script.get("sleep"):
                     c.sleeps += 1
                     await asyncio.sleep(script["sleep"])
+        elif mode == "lines":
+            # `async for line in content` spelled out, so that the monitor knows when a readline() is in flight
+            dt = script.get("sleep", 0)
+            every = script.get("sleep_every", 1)
+            it = content.__aiter__()
+            i = 0
+            while True:
+                c.begin_line(b"\n", None)
+                try:
+                    line = await it.__anext__()
+                except StopAsyncIteration:
+                    c.hold = None
+                    break
+                c.hold = None
+                c.take(line)
+                await op_done()
+                i += 1
+                if dt and i % every == 0:
+                    c.sleeps += 1
+                    await asyncio.sleep(dt)
         elif mode == "iter_chunks":
             async for chunk, _end in content.iter_chunks():
                 c.take(chunk)
@@ -334,14 +390,36 @@ async def consume(content, script: dict, c: Consumed):
                         break
                 elif kind == "readexactly":
                     c.request(op[1])
+                    c.hold = ("exact", op[1])
                     try:
                         data = await content.readexactly(op[1])
                     except asyncio.IncompleteReadError as e:
+                        c.hold = None
                         c.take(e.partial)
                         await op_done()
                         break
+                    c.hold = None
                     c.take(data)
                     await op_done()
+                elif kind == "readline":
+                    mx = op[1] if len(op) > 1 else None
+                    c.begin_line(b"\n", mx)
+                    data = await (content.readline(max_line_length=mx) if mx else content.readline())
+                    c.hold = None
+                    c.take(data)
+                    await op_done()
+                    if not data:
+                        break
+                elif kind == "readuntil":
+                    sep = bytes([op[1]])
+                    mx = op[2] if len(op) > 2 else None
+                    c.begin_line(sep, mx)
+                    data = await (content.readuntil(sep, max_size=mx) if mx else content.readuntil(sep))
+                    c.hold = None
+                    c.take(data)
+                    await op_done()
+                    if not data:
+                        break
                 else:
                     raise ValueError(kind)
         c.outcome = "eof"
@@ -353,6 +431,10 @@ async def consume(content, script: dict, c: Consumed):
     except Exception as e:  # what the application would see
         c.outcome = "error:" + type(e).__name__
         c.exc_repr = repr(e)[:300]
+    # last look at what was decoded but never handed over (an operation that failed drops what it had collected)
+    if c.after_op is not None:
+        c.after_op()
+    c.held_done = True
 
 
 class _OpsExceeded(Exception):
@@ -379,6 +461,19 @@ class Resident:
         self.transport = None
         self.pause_transitions = 0
         self._was_reading = True
+        self.held_peak = 0
+        self.held_permille = 0  # largest held / (bound + allowance) seen
+        self.held_breach = None  # (held, bound, L, kind of operation in flight)
+
+    def hold_allowance(self, L: int):
+        """what the consumer operation in flight may have collected: readexactly(n) up to n; readline()/readuntil() up
+        to max_size (default 2L: the reader's high-water mark) plus the one decoder step that takes it over"""
+        h = self.c.hold
+        if h is None:
+            return 0, "none"
+        if h[0] == "exact":
+            return h[1], "readexactly"
+        return (h[1] or 2 * L) + step_cap(self.tok, L, self.maxseg), "readline/readuntil"
 
     def __call__(self):
         rd = self.reader
@@ -403,6 +498,16 @@ class Resident:
         bound = resident_bound(self.tok, L, self.maxseg)
         if res > bound and self.breach is None:
             self.breach = (res, bound, L)
+        if self.c.track_held and not self.c.held_done:
+            held = getattr(rd, "total_bytes", 0) - self.c.n
+            if held > self.held_peak:
+                self.held_peak = held
+            allow, what = self.hold_allowance(L)
+            pm = 1000 * held // (bound + allow)
+            if pm > self.held_permille:
+                self.held_permille = pm
+            if held > bound + allow and self.held_breach is None:
+                self.held_breach = (held, bound + allow, L, what)
 
 
 def stuck_class(tr_rx, tr_tx, parser) -> str:
@@ -441,6 +546,8 @@ class _FeedGuard:
     budget = 1 << 62
     tripped = False
     installed = False
+    coded = 0  # coded bytes handed to the decoder so far in this case
+    failed = None  # (coded bytes handed over incl. the failing call, decoded bytes out before it) of the first failing call
 
     @classmethod
     def install(cls):
@@ -458,7 +565,14 @@ class _FeedGuard:
             if cls.calls > cls.budget:
                 cls.tripped = True
                 raise SpinDetected(f"DeflateBuffer.feed_data entered {cls.calls} times")
-            return orig(self, chunk)
+            cls.coded += len(chunk)
+            before = getattr(self.out, "total_bytes", 0)
+            try:
+                return orig(self, chunk)
+            except Exception:
+                if cls.failed is None:
+                    cls.failed = (cls.coded, before)
+                raise
 
         http_parser.DeflateBuffer.feed_data = feed_data
         cls.installed = True
@@ -468,6 +582,8 @@ class _FeedGuard:
         cls.install()
         cls.calls = 0
         cls.tripped = False
+        cls.coded = 0
+        cls.failed = None
         cls.budget = 10000 + 8 * (wire_len + decoded_len)
 
     @classmethod
@@ -505,6 +621,7 @@ def run_client(case: dict, pre=None):
     seg = make_seg(case, head_len, len(wire) - head_len, lines, wire)
     mon = Resident(limit, c, tok, seg.maxseg if seg.mode != "byte" else 1)
     c.after_op = mon
+    c.track_held = True
     it_budget, c.op_budget = progress_budget(len(wire), ref_exp.n)
     state = {"resp": False, "proto": None, "pipe": None, "status": None}
     peers = []
@@ -553,6 +670,8 @@ def run_client(case: dict, pre=None):
         _FeedGuard.disarm()
     res = {
         "spin": _FeedGuard.tripped,
+        "failed_feed": _FeedGuard.failed,
+        "body": body if members >= FLOOD_CAP else None,
         "run": st,
         "consumed": c,
         "mon": mon,
@@ -644,6 +763,7 @@ def run_server(case: dict):
     obs = {"entered": False, "result": None, "exc": None, "total_at_exc": None, "resident_at_exc": None, "done": False}
 
     c.bytes_observed = hk in ("read", "iter")
+    c.track_held = hk == "iter"
 
     async def handler(request):
         obs["entered"] = True
@@ -736,6 +856,8 @@ def run_server(case: dict):
         _FeedGuard.disarm()
     res = {
         "spin": _FeedGuard.tripped,
+        "failed_feed": _FeedGuard.failed,
+        "body": body if members >= FLOOD_CAP else None,
         "run": st,
         "consumed": c,
         "mon": mon,
@@ -795,6 +917,29 @@ def trunc_tolerant(tok: str) -> bool:
     return tok in ("gzip", "br", "zstd")
 
 
+def flood_call_members(case, res):
+    """P-MEMBER-FLOOD.  How many members can the decoder call that failed have walked?  Observed: the coded bytes
+    handed to the decoder up to and including that call (b) and the decoded bytes that had come out before it (o).
+    Reference: the member table of the body.  A member can only have been walked by that call if it starts inside
+    the bytes handed over (start < b), had not been finished earlier (decoded end >= o) and starts within one decoder
+    step of output (decoded start < o + L: a call stops once its output budget is used up, oracle M's step cap).
+    Returns None when no decoder call failed."""
+    ff = res.get("failed_feed")
+    body = res.get("body")
+    if ff is None or body is None or res["tok"] not in MULTI_TOKENS:
+        return None
+    b, o = ff
+    c: Consumed = res["consumed"]
+    L = None if c.unbounded else max(case["limit"], c.leff)
+    n = 0
+    cs = ds = 0
+    for ce, de in R.member_table(res["tok"], body):
+        if cs < b and de >= o and (L is None or ds < o + L):
+            n += 1
+        cs, ds = ce, de
+    return n
+
+
 def _token_case_in_error(text) -> bool:
     import re
 
@@ -843,6 +988,26 @@ def judge_transparency(case, res, rec, side):
     if not c.ok_prefix:
         v.append((f"{lvl}:delivered-bytes-differ-from-reference:{tok}", f"first differing delivery at decoded offset {c.first_bad}; delivered {c.n} ref {ref.n} status {status}"))
         return v
+    if out == "error:LineTooLong" and c.line_op is not None:
+        # P-LINE-TOO-LONG: readline()/readuntil() raise LineTooLong for a line longer than max_size, default the
+        # reader's high-water mark (tests/test_streams.py::test_readline_limit, ::test_readline_limit_with_existing_data,
+        # ::test_readuntil_limit, ::test_readuntil_limit_with_existing_data); the scripted line consumer stops there.
+        # Legitimate only when the reference plaintext really has no separator within max_size bytes of the offset the
+        # operation started at (single-byte separators only: no separator can straddle two buffers).
+        lo = c.line_op
+        if lo["unbounded"]:
+            rec.count("grey:line-limit-unknown-after-unbounded-read")
+            return v
+        mx = lo["max"] or 2 * max(case["limit"], lo["leff"])
+        ln, found = ref.line_len(lo["off"], lo["sep"])
+        if ln > mx:
+            rec.count("profile:P-LINE-TOO-LONG")
+            return v
+        if not found and status not in ("ok", "empty"):
+            rec.count("grey:line-too-long-on-undecodable-tail")
+            return v
+        v.append((f"{lvl}:line-reader:LineTooLong-for-a-line-within-the-limit", f"reference line at decoded offset {lo['off']} is {ln} bytes (separator {'found' if found else 'absent, rest of body'}), limit {mx}; {c.exc_repr}"))
+        return v
     wirecut = bool(mut and mut["kind"] == "wirecut" and case["framing"] != "close")
     is_err = out.startswith("error:")
     et = out[6:] if is_err else None
@@ -861,7 +1026,13 @@ def judge_transparency(case, res, rec, side):
         if status == "empty":
             rec.count("profile:P-EMPTY-BODY")  # tests/test_http_parser.py::TestDeflateBuffer::test_empty_body, test_compression_empty
         if is_err:
-            v.append((f"{lvl}:valid-body-rejected:{tok}:{et}", f"reference decodes {ref.n} bytes ({res['members']} members); consumer got {c.exc_repr} after {c.n} bytes"))
+            walked = flood_call_members(case, res) if et in perr else None
+            if walked is not None and walked >= FLOOD_CAP:
+                # (>=, not >: the count of a call starts with the member the previous call ended in)
+                rec.count("profile:P-MEMBER-FLOOD")
+                return v
+            more = "" if walked is None else f"; the decoder call that failed could have walked at most {walked} members (cap {FLOOD_CAP})"
+            v.append((f"{lvl}:valid-body-rejected:{tok}:{et}", f"reference decodes {ref.n} bytes ({res['members']} members); consumer got {c.exc_repr} after {c.n} bytes" + more))
         elif c.bytes_observed and c.n != ref.n:
             v.append((f"{lvl}:clean-eof-short:{tok}", f"clean EOF after {c.n} of {ref.n} decoded bytes"))
         else:
@@ -923,6 +1094,9 @@ def judge_memory(case, res, rec, side):
     if mon.breach is not None:
         r, b, L = mon.breach
         v.append((f"{side}:memory:resident-over-bound", f"{r} decoded bytes resident > bound {b} for L={L} (limit {case['limit']}, coding {res['tok']})"))
+    if mon.held_breach is not None:
+        h, b, L, what = mon.held_breach
+        v.append((f"{side}:memory:decoded-undelivered-over-bound", f"{h} decoded bytes not yet handed to the application (reader buffer + pending {what}) > bound {b} for L={L} (limit {case['limit']}, coding {res['tok']})"))
     return v
 
 
@@ -1029,6 +1203,15 @@ def judge_server(case, res, rec):
     return v
 
 
+def _consumer_kinds(case) -> list:
+    sc = case.get("consumer")
+    if not sc:
+        return []
+    if sc.get("mode", "ops") != "ops":
+        return [sc["mode"]]
+    return sorted({op[0] for op in sc.get("ops", []) if op[0] != "sleep"})
+
+
 def _uses_readchunk(case) -> bool:
     sc = case.get("consumer") or {}
     if sc.get("mode") == "iter_chunks":
@@ -1060,14 +1243,23 @@ def execute(case: dict, rec, ctx: str = ""):
         rec.count("content-coding-token-not-lower-case")
     if case.get("mut"):
         rec.count(f"mutation:{case['mut']['kind']}")
-    if case.get("members"):
+    ms = R.member_sizes(case)
+    if ms:
         rec.count("multi-member")
-        if 0 in case["members"]:
+        if 0 in ms:
             rec.count("multi-member-with-empty-members")
+        if len(ms) > FLOOD_CAP:
+            rec.count("multi-member-more-than-1024")
+            if c.outcome == "eof":
+                rec.count("multi-member-more-than-1024-decoded-to-eof")
     if side == "client":
         rec.count("consumer:" + case["consumer"].get("mode", "ops"))
     else:
         rec.count("handler:" + case["handler"])
+    for k in _consumer_kinds(case):
+        rec.count(f"consumer-op:{side}:{k}")
+        if mon.pause_transitions:
+            rec.count(f"consumer-op-under-back-pressure:{side}:{k}")
     rec.count("outcome:" + str(c.outcome))
     rec.count("decoded-bytes-delivered", c.n)
     rec.count("wire-bytes", res["wire_len"])
@@ -1081,6 +1273,8 @@ def execute(case: dict, rec, ctx: str = ""):
     L = max(case["limit"], c.leff)
     if not c.unbounded and L:
         rec.maxi("resident-peak-permille-of-bound:" + ("br" if res["tok"] == "br" else "identity" if res["tok"] == "identity" else "zlib-zstd"), int(1000 * mon.peak / resident_bound(res["tok"], L, mon.maxseg)))
+        if c.track_held:
+            rec.maxi("undelivered-peak-permille-of-its-bound", mon.held_permille)
     rec.sig(
         "state",
         (side, case["codec"], case["framing"], case["limit"], (case.get("seg") or {}).get("mode"), c.outcome, res["status"], min(mon.pause_transitions, 3), (case.get("mut") or {}).get("kind"), case.get("handler"), case.get("consumer", {}).get("mode", "ops")),
@@ -1119,10 +1313,43 @@ def execute(case: dict, rec, ctx: str = ""):
 LIMITS = (1, 16, 256, 4096, 65536)
 
 
+SEPS = (10, 10, 32, 0, 97, 0xA9)  # "\n", " ", NUL, "a", a byte of the text shape's two-byte letter
+
+
+def gen_line_consumer(rng: random.Random, decoded_n: int, limit: int) -> dict:
+    """Line-oriented consumers: `async for line in content`, readline() / readuntil() loops with the default and with
+    explicit size limits, also mixed with the other read calls.  A separator other than "\n" only for small bodies
+    (a body of zeros read until NUL is one operation per byte)."""
+    k = rng.random()
+    if k < 0.3:
+        return {"mode": "lines", "sleep": rng.choice((0, 0, 0.01)), "sleep_every": rng.choice((1, 3, 10))}
+    maxes = (None, None, 64, 1000, 100000)
+    ops = []
+    for _ in range(rng.randint(1, 3)):
+        r = rng.random()
+        mx = rng.choice(maxes)
+        if r < 0.45:
+            ops.append(["readline"] if mx is None else ["readline", mx])
+        elif r < 0.85:
+            sep = rng.choice(SEPS) if decoded_n <= 4096 else 10
+            ops.append(["readuntil", sep] if mx is None else ["readuntil", sep, mx])
+        elif r < 0.93:
+            ops.append(["read", rng.choice((1, 100, 5000) if decoded_n <= 4096 else (1000, 5000))])
+        else:
+            ops.append(["readexactly", rng.choice((1, 10, 100) if decoded_n <= 4096 else (100, 5000))])
+        if rng.random() < 0.4:
+            ops.append(["sleep", rng.choice((0, 0.001, 0.5))])
+    if not any(op[0] in ("readline", "readuntil") for op in ops):
+        ops.insert(0, ["readline"])
+    return {"ops": ops}
+
+
 def gen_consumer(rng: random.Random, decoded_n: int, limit: int) -> dict:
     """A consumer script whose cost stays sane for the body size."""
     small = decoded_n <= 4096
     k = rng.random()
+    if k >= 0.9:
+        return gen_line_consumer(rng, decoded_n, limit)
     if k < 0.12:
         return {"mode": "readall"}
     if k < 0.27:
@@ -1254,8 +1481,76 @@ def add_mutation(rng: random.Random, case: dict, kind: str) -> dict | None:
     return c
 
 
-def gen_server_case(rng: random.Random) -> dict:
+def gen_flood_case(rng: random.Random, side: str) -> dict:
+    """Bodies of hundreds to several thousand members / frames for every coding that concatenates, spread over the
+    decoder feeds in different ways: HTTP chunks of k whole members, of fixed / random byte counts, one Content-Length
+    body; wire segments from 100 bytes to 64 KiB.  Members are empty, tiny or small, in a repeating cycle."""
+    codec = rng.choice(R.MULTI)
+    m = rng.choice((300, 700, 1000, 1023, 1024, 1025, 1026, 1100, 1500, 2048, 2500, 3000, 5000))
+    shape = rng.random()
+    if shape < 0.25:
+        cycle = [rng.choice((1, 5, 30, 64))]
+    elif shape < 0.4:
+        cycle = [0] * rng.randint(1, 40) + [rng.choice((1, 20, 300))]
+    elif shape < 0.5:
+        cycle = [0]
+    else:
+        cycle = [rng.choice((0, 0, 1, 2, 7, 30, 64, 200)) for _ in range(rng.randint(2, 12))]
+    if rng.random() < 0.15:
+        cycle = cycle + [rng.choice((3000, 20000))] + [cycle[0]] * rng.randint(50, 400)  # a large member now and then
+    flood = {"m": m, "cycle": cycle}
+    n = R.flood_total(flood)
+    if n > 200000:
+        flood = {"m": m, "cycle": [min(x, 64) for x in cycle]}
+        n = R.flood_total(flood)
+    framing = rng.choice(("cl", "chunked", "chunked", "chunked", "close")) if side == "client" else rng.choice(("cl", "chunked", "chunked"))
+    limit = rng.choice(LIMITS)
+    case = {
+        "side": side,
+        "codec": codec,
+        "plain": {"kind": rng.choice(("text", "random", "zeros")), "n": n, "seed": rng.randrange(1 << 30)},
+        "flood": flood,
+        "framing": framing,
+        "limit": limit,
+        "cseed": rng.randrange(1 << 30),
+    }
+    if framing == "chunked":
+        k = rng.random()
+        if k < 0.5:
+            case["chunks"] = {"kind": "members", "per": rng.choice((1, 3, 10, 100, 100, 500, 1000, 1023, 1024))}
+        elif k < 0.8:
+            case["chunks"] = {"kind": "fixed", "n": rng.choice((64, 1000, 4096, 8192))}
+        else:
+            case["chunks"] = {"kind": "random", "seed": rng.randrange(1 << 30), "max": rng.choice((300, 5000))}
+    k = rng.random()
+    if k < 0.5:
+        case["seg"] = {"mode": "whole", "maxseg": rng.choice((100, 1500, 1500, 4096, MAXSEG))}
+    else:
+        case["seg"] = {"mode": "random", "seed": rng.randrange(1 << 30), "maxseg": rng.choice((1500, 4096, MAXSEG))}
+    k = rng.random()
+    if k < 0.2:
+        consumer = {"mode": "readall"}
+    elif k < 0.4:
+        consumer = {"mode": "iter_chunked", "n": rng.choice((100, 1024, 4096, 70000)), "sleep": rng.choice((0, 0.01)), "sleep_every": rng.choice((1, 10))}
+    elif k < 0.5:
+        consumer = {"mode": "iter_any", "sleep": rng.choice((0, 0.01))}
+    elif k < 0.6 and n:
+        consumer = gen_line_consumer(rng, max(n, 4097), limit)
+    else:
+        consumer = gen_consumer(rng, max(n, 4097), limit)
+    if side == "client":
+        case["consumer"] = consumer
+    else:
+        case["handler"] = rng.choice(("iter", "iter", "read"))
+        case["cms"] = rng.choice((0, 1 << 20))
+        if case["handler"] == "iter":
+            case["consumer"] = consumer
+    return case
+
+
+def gen_server_case(rng: random.Random, hk_forced: str | None = None) -> dict:
     hk = rng.choice(("read", "read", "post", "iter", "multipart", "post-multipart"))
+    hk = hk_forced or hk
     codec = rng.choice(("gzip", "deflate", "deflate-raw", "br", "zstd", "identity"))
     framing = rng.choice(("cl", "chunked"))
     if codec == "identity":
@@ -1327,6 +1622,10 @@ def shards(tier, seed):
         add("bombs", codecs=["br", "zstd"], small=100_000, big=10_000_000, limits=[256, 4096])
         add("bombs", codecs=["deflate-raw"], small=100_000, big=10_000_000, limits=[4096], tracemalloc=["gzip", "deflate", "br", "zstd"])
         add("server-bombs", big=10_000_000)
+        for _ in range(2):
+            add("floods", n=400)
+        add("lines", n=1000)
+        add("bomb-consumers", codecs=["gzip", "deflate", "deflate-raw", "br", "zstd"], big=10_000_000, limits=[256, 4096], sides=["client", "server"])
     else:
         for _ in range(24):
             add("client-valid", n=2600)
@@ -1340,6 +1639,12 @@ def shards(tier, seed):
             add("bombs", codecs=[codec], small=1_000_000, big=100_000_000, limits=[256, 4096, 65536], tracemalloc=[codec] if codec != "deflate-raw" else [])
         add("server-bombs", big=100_000_000)
         add("server-bombs", big=10_000_000)
+        for _ in range(12):
+            add("floods", n=3000)
+        for _ in range(8):
+            add("lines", n=6000)
+        for codec in ("gzip", "deflate", "deflate-raw", "br", "zstd"):
+            add("bomb-consumers", codecs=[codec], big=100_000_000, limits=[256, 4096, 65536], sides=["client", "server"])
     return out
 
 
@@ -1456,6 +1761,35 @@ def run_shard(spec, rec):
                 case = mc or case
             v, res = execute(case, rec, "server")
             _sample(rec, case, res, v, 47)
+    elif kind == "floods":
+        for i in range(spec["n"]):
+            case = gen_flood_case(rng, "client" if i % 3 else "server")
+            if rng.random() < 0.15 and case["flood"]["m"] <= 1100:  # (cost of the byte-wise reference decode)
+                mc = add_mutation(rng, case, rng.choice(("trunc", "flip", "garbage")))
+                case = mc or case
+            v, res = execute(case, rec, "floods")
+            _sample(rec, case, res, v, 23)
+    elif kind == "lines":
+        for i in range(spec["n"]):
+            if i % 3:
+                case = gen_client_case(rng, "mixed")
+            else:
+                case = gen_server_case(rng, "iter")
+            n = case["plain"]["n"]
+            if rng.random() < 0.5:
+                case["plain"]["kind"] = rng.choice(("text", "text", "lines"))
+                if case["plain"]["kind"] == "lines":
+                    case["plain"]["w"] = rng.choice((1, 2, 10, 100, 1000, 5000))
+                    if case.get("members"):
+                        case.pop("members")
+            case["consumer"] = gen_line_consumer(rng, n, case["limit"])
+            if rng.random() < 0.25 and case["codec"] != "identity":
+                mc = add_mutation(rng, case, rng.choice(("trunc", "flip", "garbage", "wirecut")))
+                case = mc or case
+            v, res = execute(case, rec, "lines")
+            _sample(rec, case, res, v, 41)
+    elif kind == "bomb-consumers":
+        run_bomb_consumers(spec, rec, rng)
     elif kind == "bombs":
         run_bombs(spec, rec, rng)
     elif kind == "server-bombs":
@@ -1530,6 +1864,68 @@ def run_bombs(spec, rec, rng):
                     )
     for codec in spec.get("tracemalloc", []):
         tracemalloc_check(codec, min(spec["big"], 10_000_000), rec)
+
+
+def bomb_consumer_menu(limit: int):
+    """(name, consumer script, plaintext shape): every read API of the stream, paced by a slow application."""
+    w = 1000 if limit >= 1024 else max(2, limit)
+    lines = {"kind": "lines", "w": w}
+    flat = {"kind": "zeros"}
+    big = max(4 * limit, 70000)
+    return [
+        ("readline-no-separator", {"ops": [["readline"]]}, flat),
+        ("readuntil-no-separator", {"ops": [["readuntil", 10]]}, flat),
+        ("readuntil-explicit-max-no-separator", {"ops": [["readuntil", 10, big]]}, flat),
+        ("lines-iteration", {"mode": "lines", "sleep": 0.001, "sleep_every": 8}, lines),
+        ("readline-loop", {"ops": [["readline"], ["sleep", 0.001]]}, lines),
+        ("readuntil-loop-explicit-max", {"ops": [["readuntil", 10, big], ["sleep", 0.001]]}, lines),
+        ("readline-then-reads", {"ops": [["readline"], ["read", 1024], ["readany"]]}, lines),
+        ("readexactly-loop", {"ops": [["readexactly", 1000], ["sleep", 0.001]]}, flat),
+        ("readexactly-larger-than-limit", {"ops": [["readexactly", big], ["sleep", 0.001]]}, flat),
+        ("readchunk-loop", {"ops": [["readchunk"], ["sleep", 0.001]]}, flat),
+        ("iter-chunks", {"mode": "iter_chunks", "sleep": 0.001, "sleep_every": 4}, flat),
+    ]
+
+
+def run_bomb_consumers(spec, rec, rng):
+    """Oracle M/M2 and P for every consumer API on a high-ratio body, client (resp.content) and server
+    (request.content), with the transport really pausing.  The line readers meet both a body they can walk (lines
+    shorter than the limit) and one without any separator (they must give up within their bound)."""
+    big = spec["big"]
+    for codec in spec["codecs"]:
+        for limit in spec["limits"]:
+            for side in spec["sides"]:
+                for name, consumer, shape in bomb_consumer_menu(limit):
+                    if limit < 1024 and name in ("readchunk-loop", "iter-chunks"):
+                        continue  # one operation per 3*limit bytes: cost only
+                    n = big
+                    if shape["kind"] == "lines" or "readexactly-loop" == name:
+                        n = min(big, 10_000_000 if limit >= 1024 else 1_000_000)  # one operation per line
+                    framing = rng.choice(("cl", "chunked", "close")) if side == "client" else rng.choice(("cl", "chunked"))
+                    plain = dict(shape, n=n, seed=5)
+                    if side == "client":
+                        case = bomb_case(codec, n, limit, framing, consumer)
+                        case["plain"] = plain
+                    else:
+                        case = {
+                            "side": "server",
+                            "handler": "iter",
+                            "codec": codec,
+                            "plain": plain,
+                            "framing": framing,
+                            "limit": limit,
+                            "cms": 1024,
+                            "cseed": 5,
+                            "seg": {"mode": "whole", "maxseg": MAXSEG},
+                            "consumer": consumer,
+                        }
+                        if framing == "chunked":
+                            case["chunks"] = {"kind": "fixed", "n": 8192}
+                    v, res = execute(case, rec, "bomb-consumer:" + name)
+                    rec.count("bomb-runs")
+                    rec.count(f"bomb-consumer:{side}:{name}:{res['consumed'].outcome}")
+                    rec.count("bomb-decoded-bytes", res["consumed"].n)
+                    _sample(rec, case, res, v, 7)
 
 
 def tracemalloc_check(codec, n, rec, limit=4096):
